@@ -1,4 +1,5 @@
 import Bw.Pipeline
+import Bw.Lemmas.Text
 /-! # C10 — every diagnostic points at the text it is about
 
 Model-level statements about the reported ranges; the byte-exact "cut the range out of the file"
@@ -37,6 +38,29 @@ theorem trimmed_key_range (re : Regex) (l : Text) (k : Text) (s e : Nat) (h : ke
         have := Char.utf8Size_pos c
         simp [ulen]; omega
     exact ⟨rfl, rfl, by omega, hne⟩
+
+/-- **the reported in-line byte range, cut out of the content line, is exactly the key** (trimmed keys of
+    keep-sorted, keep-unique and line-pattern): bytes `cs-1 .. ce` (1-based, inclusive) of the line -/
+theorem trimmed_key_cut (re : Regex) (l k : Text) (s e : Nat) (h : keyOf re none l = some (k, s, e)) :
+    sliceBytes (s - 1) e l = k := by
+  obtain ⟨hk, hs, he, _⟩ := trimmed_key_range re l k s e h
+  subst hk; subst hs
+  have : e = leadBytes l + ulen (trim l) := by omega
+  rw [this]
+  exact slice_trim l
+
+/-- the same for the key of `line-pattern`'s first failing line -/
+theorem line_pattern_key_cut (re : Regex) (pat : Text) (ls : List (Nat × Text)) (k : Key) (l : Text)
+    (hk : k.key = trim l) (hs : k.cs = leadBytes l + 1) (he : k.ce = k.cs + ulen (trim l) - 1) (hne : trim l ≠ []) :
+    sliceBytes (k.cs - 1) k.ce l = k.key := by
+  have hpos : 0 < ulen (trim l) := by
+    cases ht : trim l with
+    | nil => exact absurd ht hne
+    | cons c cs => have := Char.utf8Size_pos c; simp [ulen]; omega
+  rw [hk, hs]
+  have : k.ce = leadBytes l + ulen (trim l) := by omega
+  rw [this]
+  exact slice_trim l
 
 /-- a regex key's range is the match's byte range (1-based, inclusive) -/
 theorem regex_key_range (re : Regex) (p l : Text) (lm : LineMatch) (h : re.captures p l = some lm) :
